@@ -203,17 +203,18 @@ func RenderKRetry(cmpID int, o *opt.Options, b *leveldb.VerifBuild) (string, []s
 	}
 	var atts []string
 	nfail := 0
+	cursorsMoved := false // a failed attempt left base-level cursors beyond its snapshot's: restore has to rewind them
 	for _, a := range b.Attempts {
-		tp := make([]string, len(a.SnapTPtrs))
-		for i, x := range a.SnapTPtrs {
-			tp[i] = fmt.Sprintf("%d", x)
-		}
 		// the model keeps one cursor per level below the output level, the code one per level of the version
-		atts = append(atts, fmt.Sprintf("KA %s %d %s %s %d %d %d %d %s %d [%s] %d %d %d", vlib.CoqBool(a.Err != ""), a.SnapIter,
+		atts = append(atts, fmt.Sprintf("KA %s %d %s %s %d %d %d %d %s %d [%s] %d %d %d [%s] %d %s %d [%s] [%s]", vlib.CoqBool(a.Err != ""), a.SnapIter,
 			vlib.CoqBool(a.SnapHasLast), vlib.CoqHex(a.SnapLastUkey), a.SnapLastSeq, a.SnapKerr, a.SnapDrop, a.SnapGPI, vlib.CoqBool(a.SnapSeen),
-			a.SnapGPBytes, strings.Join(tp, "; "), a.NTables, a.Kerr, a.Drop))
+			a.SnapGPBytes, coqInts(a.SnapTPtrs), a.NTables, a.Kerr, a.Drop,
+			coqInts(a.TPtrs), a.RestGPI, vlib.CoqBool(a.RestSeen), a.RestGPBytes, coqInts(a.RestTPtrs), coqInts(a.RestSnapTPtrs)))
 		if a.Err != "" {
 			nfail++
+			if !intsEq(a.TPtrs, a.SnapTPtrs) {
+				cursorsMoved = true
+			}
 		}
 	}
 	c := fmt.Sprintf("KRetry %d %d %s %d %d [%s] %s %s %s [%s] %s", cmpID, b.MinSeq, vlib.CoqBool(b.Strict), b.TableSize, b.MaxGPOverlaps,
@@ -231,10 +232,33 @@ func RenderKRetry(cmpID int, o *opt.Options, b *leveldb.VerifBuild) (string, []s
 	if len(b.GP) > 0 {
 		tags = append(tags, "k_retry_with_grandparents")
 	}
+	if cursorsMoved {
+		tags = append(tags, "k_retry_cursors_rewound_by_restore")
+	}
 	if len(b.OutEntries) > 1 {
 		tags = append(tags, "k_retry_several_outputs")
 	}
 	return c, tags, true
+}
+
+func coqInts(xs []int) string {
+	tp := make([]string, len(xs))
+	for i, x := range xs {
+		tp[i] = fmt.Sprintf("%d", x)
+	}
+	return strings.Join(tp, "; ")
+}
+
+func intsEq(a, b []int) bool {
+	if len(a) != len(b) {
+		return false
+	}
+	for i := range a {
+		if a[i] != b[i] {
+			return false
+		}
+	}
+	return true
 }
 
 func minInt(a, b int) int {
